@@ -364,8 +364,52 @@ class Result:
         return self.rc == 101 or 'panicked at' in self.err or 'panicked at' in self.out or (self.rc is not None and self.rc < 0 and -self.rc in (6, 11))
 
 
+def _stutter(sid, seed, stop):
+    """Descheduling injection: again and again stop one redo process of the session for a few (tens of) milliseconds.  A process
+    that is continued finds everything that became ready in the meantime - a token, an expired timer, an exited child - in one
+    wake-up, which an idle machine hardly ever produces."""
+    import random
+    waiters = isinstance(seed, tuple) and seed[0] == 'waiters'
+    rnd = random.Random(repr(seed))
+    while not stop.is_set():
+        pids = []
+        all_ = session_pids(sid)
+        parents = set()
+        for pid in all_:
+            try:
+                st = open('/proc/%d/stat' % pid).read()
+                parents.add(int(st[st.rfind(')') + 2:].split()[1]))
+            except (OSError, ValueError, IndexError):
+                pass
+        for pid in all_:
+            try:
+                if not open('/proc/%d/comm' % pid).read().startswith('redo'):
+                    continue
+                if waiters:
+                    # only processes that sit in their event loop with no child: waiting for a job slot (or for the log)
+                    if pid in parents or 'poll_schedule' not in open('/proc/%d/wchan' % pid).read():
+                        continue
+                pids.append(pid)
+            except OSError:
+                pass
+        if pids:
+            pid = rnd.choice(pids)
+            try:
+                os.kill(pid, signal.SIGSTOP)
+                time.sleep(rnd.choice([0.05, 0.12, 0.25, 0.4, 0.7]) if waiters else rnd.choice([0.004, 0.012, 0.02, 0.035, 0.06]))
+                os.kill(pid, signal.SIGCONT)
+            except OSError:
+                pass
+        time.sleep(rnd.random() * (0.08 if waiters else 0.02))
+    for pid in session_pids(sid):
+        try:
+            os.kill(pid, signal.SIGCONT)
+        except OSError:
+            pass
+
+
 def run_cmd(argv, cwd, env=None, timeout=60.0, stuck_after=6.0, stdin=None, pass_fds=(), preexec=None,
-            wait_session=True, merge=False):
+            wait_session=True, merge=False, stutter=None):
     """Run one top-level command in its own session.
     status: 'exit' | 'stuck' (confirmed, with witness) | 'timeout' (inconclusive).
     With wait_session the call also waits until every process of the session is gone
@@ -390,6 +434,11 @@ def run_cmd(argv, cwd, env=None, timeout=60.0, stuck_after=6.0, stdin=None, pass
     status = 'exit'
     witness = None
     next_stuck = t0 + stuck_after
+    st_stop = threading.Event()
+    st_th = None
+    if stutter is not None:
+        st_th = threading.Thread(target=_stutter, args=(sid, stutter, st_stop), daemon=True)
+        st_th.start()
     while True:
         try:
             p.wait(timeout=0.25 if time.time() - t0 > 1 else 0.02)
@@ -419,6 +468,9 @@ def run_cmd(argv, cwd, env=None, timeout=60.0, stuck_after=6.0, stdin=None, pass
                 witness = dict(procs=[dict(pid=i['pid'], argv0=i['argv0'], args=i['args'], state=i['state'],
                                            syscall=i['syscall']) for i in stuck_snapshot(sid)])
             break
+    st_stop.set()
+    if st_th:
+        st_th.join(timeout=2)
     if status != 'exit':
         kill_session(sid)
         try:
